@@ -92,13 +92,25 @@ def function_case(draw):
             "err_fn": draw(st.sampled_from([0.01, 0.001, 0.05, 0.2])),
             "err_xi": draw(st.sampled_from([0.05, 0.01, 0.3, 1.5])),
             "err_phi": draw(st.sampled_from([0.03, 0.001, 0.2, 1.1, 1e-7, 3e-6])),
-            "phiscale": draw(st.sampled_from([0, 0, 6, 12]))}  # un-normalised mode shapes: every pole's shape times 10^u, |u| <= phiscale
+            "phiscale": draw(st.sampled_from([0, 0, 6, 12])),  # un-normalised mode shapes: every pole's shape times 10^u, |u| <= phiscale
+            "between": draw(st.sampled_from([0.0, 0.0, 1e-3, 1e-2, 0.1]))}  # some poles moved (almost) half-way between two poles of the previous order
 
 
 def judge_function(case):
     j = J()
     t = tables.build(case["table"])
     Fn, Xi, Phi = t["Fn"], t["Xi"], t["Phi"]
+    if case.get("between"):
+        # which previous-order pole is the closest one is then decided by a small margin (on either side of the midpoint)
+        Fn = Fn.copy()
+        r_ = rng_of(case["table"]["seed"] + 78)
+        for o in range(1, Fn.shape[1]):
+            prev = np.sort(Fn[np.isfinite(Fn[:, o - 1]), o - 1])
+            rows = np.nonzero(np.isfinite(Fn[:, o]))[0]
+            if len(prev) >= 2 and len(rows) and prev[-1] > prev[0]:
+                k = int(r_.integers(0, len(prev) - 1))
+                Fn[int(r_.choice(rows)), o] = 0.5 * (prev[k] + prev[k + 1]) + case["between"] * float(r_.choice([-1.0, 1.0])) * 0.5 * (prev[k + 1] - prev[k])
+        j.tag("pole-between-two-previous")
     if case.get("phiscale"):
         u = rng_of(case["table"]["seed"] + 77).uniform(-case["phiscale"], case["phiscale"], size=Fn.shape)
         Phi = Phi * (10.0 ** u)[:, :, None]
